@@ -65,10 +65,12 @@ def _kernel_layers(rec, clause):
 
 
 def _mul_permuted(rec, clause):
-    _, _, _, hk, kind = rec["id"].split(".")
+    parts = rec["id"].split(".")
+    hk, kind = parts[3], parts[4]
+    perm = tuple(int(c) for c in parts[5][5:]) if len(parts) > 5 and parts[5].startswith("order") else (1, 0)
     model = (clause.get("model") or {}).get("inputs", {})
     return ("import sys, json\nfrom native.replay_functional import multiply_permuted\n"
-            f"sys.exit(multiply_permuted({hk!r}, {kind!r}, json.loads({json.dumps(json.dumps(model, default=str))})))\n")
+            f"sys.exit(multiply_permuted({hk!r}, {kind!r}, json.loads({json.dumps(json.dumps(model, default=str))}), {perm!r}))\n")
 
 
 def _patterns(rec, clause):
